@@ -9,10 +9,10 @@ sys.path.insert(0, os.path.dirname(os.path.dirname(os.path.abspath(__file__))))
 import vlib
 
 PROP = 'C06'
-HEADER = ('From Coq Require Import List NArith.\nFrom VIsa Require Import Lanes LanesCorr.\n'
+HEADER = ('From Coq Require Import List NArith ZArith.\nFrom VIsa Require Import Lanes LanesCorr.\nFrom VIsa Require IsaState.\n'
           'Import ListNotations.\nOpen Scope N_scope.\n')
 COQ_TARGETS = ['props/C06.vo']
-DETAIL = {1: 'VGPR file', 2: 'SGPR file', 3: 'EXEC/VCC', 4: 'memory content', 5: 'a store the code did not make',
+DETAIL = {99: 'handler not in the ExecImplV table', 1: 'VGPR file', 2: 'SGPR file', 3: 'EXEC/VCC', 4: 'memory content', 5: 'a store the code did not make',
           6: 'LDS content'}
 
 
@@ -76,14 +76,14 @@ def main(argv):
     rep.checker_cmd = ('make -C coq props/C06.vo && coqc props/C06.v (Print Assumptions) && build/bin/c06 (monitors i, ii, scalar) '
                        '&& coqc cases/C06/s*.v (vm_compute mismatches)')
     rep.trusted = ['Coq 8.16.1 kernel + vm_compute',
-                   'hand transcription coq/isa/LanesCorr.v of 30 representative handlers (checked by sampling, not verified)',
+                   'hand transcriptions coq/isa/LanesCorr.v (17 integer ALU handlers, all FLAT and DS handlers) and coq/isa/ExecImplV.v (C03 builder, ~75 integer vector rows per ALU), checked by sampling, not verified',
                    'the claim that every other handler has the loop shape of Lanes.seq_loop rests on monitors (i)/(ii) run on the real code',
                    'Go harness harness/cmd/c06 (recording InstEmuState over the repository\'s emu.Wavefront, logging StorageAccessor, instruction encoders)',
                    'insts.Disassembler.Decode builds the instruction values the handlers are run on']
     rep.assumptions = ['theorems: generic in the per-lane function (extensional; a load or a store), all 2^64 EXEC masks, all states, all lane permutations',
                        'sampled: which handlers are instances of the combinator']
     thorough = vlib.tier() == 'thorough'
-    n, ns, nc = (300, 120, 12) if thorough else (24, 14, 2)
+    n, ns, nc, ncv = (300, 120, 8, 4) if thorough else (24, 14, 2, 1)
 
     replay_file = argv[argv.index('--replay') + 1] if '--replay' in argv else None
 
@@ -127,7 +127,7 @@ def main(argv):
             violations += out['violations'] or []
             coq_cases += out['coq_cases'] or []
         rep.coverage['corpus_cases'] = len(corpus)
-        out, log = run_harness(binary, ['--seed', str(vlib.seed()), '--n', str(n), '--ns', str(ns), '--nc', str(nc)])
+        out, log = run_harness(binary, ['--seed', str(vlib.seed()), '--n', str(n), '--ns', str(ns), '--nc', str(nc), '--ncv', str(ncv)])
         if out is None:
             rep.obligation('harness run', False)
             rep.violation({'broken': 'harness run failed', 'log': log[-4000:]}, nofail=True)
@@ -139,8 +139,14 @@ def main(argv):
     # ---- correspondence with the Coq combinator
     okc, mism, clog = vlib.eval_cases(PROP, HEADER, [c['coq'] for c in coq_cases], shard_size=max(4, len(coq_cases) // 16 + 1),
                                       ty='icase') if coq_cases else (True, [], '')
-    rep.obligation('correspondence: %d cases of %d representative handlers replayed through Lanes.seq_loop' %
-                   (len(coq_cases), len({key(c['spec']) for c in coq_cases})), okc and not mism)
+    unmodelled = sorted({coq_cases[i]['spec']['corr'] for i, k in mism if k == 99})
+    mism = [(i, k) for i, k in mism if k != 99]
+    own = [c for c in coq_cases if not c['spec']['corr'].startswith('H_v ')]
+    rep.obligation('correspondence: %d cases of %d handlers replayed through Lanes.seq_loop (%d cases / %d handlers on own transcriptions, '
+                   '%d cases / %d handlers on rows of ExecImplV.vdesc_of)' %
+                   (len(coq_cases), len({key(c['spec']) for c in coq_cases}), len(own), len({key(c['spec']) for c in own}),
+                    len(coq_cases) - len(own), len({key(c['spec']) for c in coq_cases if c['spec']['corr'].startswith('H_v ')})),
+                   okc and not mism)
 
     vec = [h for h in handlers if not h.get('scalar')]
     sca = [h for h in handlers if h.get('scalar')]
@@ -159,7 +165,8 @@ def main(argv):
         'handlers_under_iii_correspondence': len({key(c['spec']) for c in coq_cases}),
         'scalar_handlers_exec_independence_checked': sum(1 for h in sca if h['discipline_checked'] > 0),
         'cases_i': sum(h['discipline_checked'] for h in vec), 'cases_ii': sum(h['metamorphic_checked'] for h in vec),
-        'cases_iii': len(coq_cases), 'cases_scalar': sum(h['discipline_checked'] for h in sca),
+        'cases_iii': len(coq_cases), 'rows_missing_in_ExecImplV': unmodelled,
+        'handlers_under_iii_by_format': dict(collections.Counter('%s/%s' % (a, f) for a, f, _ in {tuple(key(c['spec']).split('/')) for c in coq_cases})), 'cases_scalar': sum(h['discipline_checked'] for h in sca),
         'store_cases_with_colliding_lanes': sum(h['overlap_cases'] for h in vec),
         'vector_exceptions_documented_cross_lane': ['%s/%s/%d %s' % (h['alu'], h['fmt'], h['opcode'], h['name']) for h in vec if h.get('exception')],
         'scalar_exceptions_documented_exec_readers': ['%s/%s/%d %s' % (h['alu'], h['fmt'], h['opcode'], h['name']) for h in sca if h.get('exception')],
